@@ -87,6 +87,9 @@ func runOnce(s Scenario, f Fault) (res runResult, infra error) {
 		if f.Kind == "panic" {
 			b = vh.CABehaviour{Panic: true}
 		}
+		if f.Kind == "error+certs" {
+			b.ErrWithCerts, b.NCerts = true, s.NCerts
+		}
 		ca.Script = append(ca.Script, b, vh.CABehaviour{NCerts: s.NCerts})
 	}
 	hlog := &vh.HandlerLog{}
@@ -215,7 +218,7 @@ func exec(s Scenario) (vh.Outcome, error) {
 		faults = append(faults, Fault{"agent", i, "fail"}, Fault{"agent", i, "close"})
 	}
 	for j := 0; j < m; j++ {
-		faults = append(faults, Fault{"ca", j, "error"}, Fault{"ca", j, "panic"})
+		faults = append(faults, Fault{"ca", j, "error"}, Fault{"ca", j, "panic"}, Fault{"ca", j, "error+certs"})
 	}
 	for _, k := range []string{"name", "authenticate", "generate", "csrs", "addcerts"} {
 		faults = append(faults, Fault{"handler", 0, k})
@@ -254,6 +257,9 @@ func exec(s Scenario) (vh.Outcome, error) {
 			if f.Kind == "panic" {
 				allowed = []string{"Panic"}
 			}
+			if len(res.caCalls) != f.Index+1 {
+				return out, vh.Errf("%s: the signer received %d calls; the run must stop at the failed call %d", fd, len(res.caCalls), f.Index)
+			}
 		case "handler":
 			if f.Kind == "name" && !s.RejectFirst {
 				// Name is only used for logging: whether it runs at all is not part of the property
@@ -277,7 +283,7 @@ func exec(s Scenario) (vh.Outcome, error) {
 	return out, nil
 }
 
-const rule = "scenarios: the real regular handler, or a harness handler producing 1..3 agent keys x 1..3 requests through the repository's AgentKey, CA returning 1..3 certificates per request, 0..2 stale labelled certificates in the agent, optionally a rejecting handler in front. Per scenario a fault-free run fixes the number of agent operations n and CA calls m; then EVERY (operation index 0..n-1) x {failure reply, connection closed}, every CA call x {error, panic} and a panic in each of Name / Authenticate / Generate / CSRs / AddCertsToAgent is executed in a fresh world (exhaustive per scenario; scenarios random). Oracle: challenge fault => AllAuthFailed; agent fault before the first CA call => a typed generation error; CA error => SignerSignErr; list / remove / add-certificate fault => AgentOpCertErr; any panic => Panic; always a *gensign.Error, the process survives; fault-free: nil, CA calls = all requests in order, every returned certificate in the agent; always: certificates added are a subset of those the CA returned. Non-trivial: at least one injected fault was reached and judged."
+const rule = "scenarios: the real regular handler, or a harness handler producing 1..3 agent keys x 1..3 requests through the repository's AgentKey, CA returning 1..3 certificates per request, 0..2 stale labelled certificates in the agent, optionally a rejecting handler in front. Per scenario a fault-free run fixes the number of agent operations n and CA calls m; then EVERY (operation index 0..n-1) x {failure reply, connection closed}, every CA call x {error, panic, error handed back together with certificates} and a panic in each of Name / Authenticate / Generate / CSRs / AddCertsToAgent is executed in a fresh world (exhaustive per scenario; scenarios random). Oracle: challenge fault => AllAuthFailed; agent fault before the first CA call => a typed generation error; CA error => SignerSignErr and no further CA call; list / remove / add-certificate fault => AgentOpCertErr; any panic => Panic; always a *gensign.Error, the process survives; fault-free: nil, CA calls = all requests in order, every returned certificate in the agent; always: certificates added are a subset of those the CA returned. Non-trivial: at least one injected fault was reached and judged."
 
 func TestC04Faults(t *testing.T) {
 	vh.Run(t, vh.Spec[Scenario]{Property: "C04", Name: "TestC04Faults", Rule: rule,
